@@ -27,9 +27,8 @@ except ImportError:
             return dumps(data, indent=2, **kwargs)
 
 
-from code_data._normalize import normalize
-
 from . import CodeData
+from ._normalize import normalize
 
 __all__ = ["main"]
 
